@@ -204,6 +204,57 @@ def solver_direct_search(ctx):
     ctx.oblige("search: fixed-point solvers on scripted contractions / expansions with faults: converged result or ConvergenceError only", bad == 0, f"{bad} failures")
 
 
+def reversibility_check_search(ctx):
+    """a step whose reversibility check fails must not move the chain and must be recorded: on strongly curved manifolds with large steps and several inner steps,
+    every ACCEPTED move not flagged non_reversible_step / convergence_error is undone by one step from the accepted state with the direction flipped"""
+    import mici
+    import zoo
+    from mici.errors import IntegratorError
+    from mici.states import ChainState
+    bad = 0
+    counts = {"accepted": 0, "flagged": 0}
+    for kind, metric in (("curve", None), ("surface", np.array([1.0, 2.0, 0.5]))):
+        s, point, d = zoo.make_curved(kind, metric)
+        rng = np.random.default_rng(int(ctx.rng.integers(0, 2 ** 31)))
+        for n_inner in (1, 2, 3):
+            for eps in (0.5, 0.9, 1.3):
+                integ = mici.integrators.ConstrainedLeapfrogIntegrator(s, eps, n_inner_step=n_inner)
+                trans = mici.transitions.MetropolisStaticIntegrationTransition(s, integ, n_step=1)
+                for _ in range(12 if not ctx.thorough else 60):
+                    q = point(rng)
+                    st = ChainState(pos=q, mom=None, dir=1)
+                    st.mom = s.sample_momentum(st, rng)
+                    start = st.copy()
+                    new, stats = trans.sample(st, rng)
+                    ctx.case(("revcheck", kind, n_inner, eps, tuple(np.round(q, 4))))
+                    ctx.count("search:reversibility_recorded")
+                    if stats["non_reversible_step"] or stats["convergence_error"]:
+                        counts["flagged"] += 1
+                        if not np.array_equal(new.pos, start.pos):
+                            bad += 1
+                            ctx.fail("flagged_step_moved", f"{kind}, n_inner_step={n_inner}, eps={eps}: a transition flagged non_reversible_step / convergence_error moved the chain", {})
+                        continue
+                    if np.array_equal(new.pos, start.pos):
+                        continue
+                    counts["accepted"] += 1
+                    back = ChainState(pos=new.pos.copy(), mom=new.mom.copy(), dir=-start.dir if new.dir == start.dir else new.dir)
+                    # the Metropolis transition flips the direction on acceptance twice (net unchanged): step back along the reversed direction
+                    back.dir = -start.dir
+                    try:
+                        r = integ.step(back)
+                        err = np.abs(r.pos - start.pos).max()
+                    except IntegratorError:
+                        err = np.inf
+                    if not err <= 1e-5:
+                        bad += 1
+                        ctx.fail("unrecorded_irreversible_step", f"{kind} manifold, n_inner_step={n_inner}, eps={eps}: the chain accepted a move with non_reversible_step=False and "
+                                 f"convergence_error=False, but one step back from the accepted state ends {err:.2e} from the start (the step was not reversible and was not recorded)",
+                                 {"kind": kind, "n_inner": n_inner, "eps": eps, "pos": start.pos.tolist(), "mom": start.mom.tolist()})
+    ctx.extra["reversibility_check_counts"] = counts
+    ctx.oblige("search: constrained transitions on strongly curved manifolds with large steps and 1-3 inner steps: flagged steps leave the state unchanged, accepted unflagged "
+               "moves are reversible", bad == 0, f"{bad} failures; {counts}")
+
+
 def run(ctx):
     ctx.rule = "fault grid cases: (system, integrator/solver, transition, callback, call index, fault kind); distinct = distinct tuple"
     ctx.assume("the solver loop model abstracts each iteration's callbacks into one outcome (value with its error norm / NaN-valued / exception)",
@@ -213,4 +264,5 @@ def run(ctx):
     if ok and ctx.build(["Props/C12.vo"]):
         ctx.props()
     solver_direct_search(ctx)
+    reversibility_check_search(ctx)
     fault_grid(ctx)
